@@ -25,24 +25,26 @@ use xml_dom::{
 
 struct St {
     doc: XmlDocument,
-    handles: Vec<XmlNode>,
+    handles: Vec<Option<XmlNode>>,
     by_id: HashMap<usize, usize>,
 }
 
 impl St {
-    fn add(&mut self, n: XmlNode) -> usize {
-        let id = n.id();
-        if id != 0 {
-            if let Some(h) = self.by_id.get(&id) {
-                return *h;
+    // every allocating operation consumes exactly one handle slot, whether it yields a node or not, so that the
+    // numbering of handles does not depend on the outcome of earlier operations
+    fn slot(&mut self, n: Option<XmlNode>) -> usize {
+        if let Some(node) = &n {
+            let id = node.id();
+            if id != 0 && !self.by_id.contains_key(&id) {
+                self.by_id.insert(id, self.handles.len());
             }
         }
         self.handles.push(n);
-        let h = self.handles.len() - 1;
-        if id != 0 {
-            self.by_id.insert(id, h);
-        }
-        h
+        self.handles.len() - 1
+    }
+
+    fn add(&mut self, n: XmlNode) -> usize {
+        self.slot(Some(n))
     }
 
     fn number(&mut self, n: &XmlNode, depth: usize) {
@@ -74,7 +76,7 @@ impl St {
 
     fn get(&self, s: &str) -> Option<XmlNode> {
         let i: usize = s.trim_start_matches('h').parse().ok()?;
-        self.handles.get(i).cloned()
+        self.handles.get(i).cloned().flatten()
     }
 }
 
@@ -225,6 +227,10 @@ fn monitors(st: &St, exprs: &[String]) -> String {
     }
     // detached trees: a root without parent, consistent views, all keys 0
     for (h, n) in st.handles.iter().enumerate() {
+        let n = match n {
+            Some(n) => n,
+            None => continue,
+        };
         if seen.contains(&n.id()) {
             continue;
         }
@@ -239,8 +245,26 @@ fn monitors(st: &St, exprs: &[String]) -> String {
                 break;
             }
         }
-        if let XmlNode::Attribute(_) = top {
-            // an attribute is not a child of its element; a detached attribute is its own root
+        // an attribute is not a child of its element: continue from the element that bears it
+        let mut guard2 = 0;
+        while let XmlNode::Attribute(a) = &top {
+            match a.owner_element() {
+                Some(el) => {
+                    top = el.as_node();
+                    while let Some(p) = top.parent_node() {
+                        top = p;
+                        guard2 += 1;
+                        if guard2 > 400 {
+                            break;
+                        }
+                    }
+                }
+                None => break,
+            }
+            guard2 += 1;
+            if guard2 > 400 {
+                break;
+            }
         }
         if seen.contains(&top.id()) {
             if let XmlNode::Attribute(_) = n {
@@ -268,8 +292,8 @@ fn monitors(st: &St, exprs: &[String]) -> String {
             let mut qbad: Vec<String> = vec![];
             if a == b {
                 for ex in exprs {
-                    let la = crate::ops_xpath::Locator::new(&st.doc);
-                    let lb = crate::ops_xpath::Locator::new(&d2);
+                    let la = crate::ops_xpath::Locator::new_merged(&st.doc);
+                    let lb = crate::ops_xpath::Locator::new_merged(&d2);
                     let mut c1 = xml_xpath::eval::model::Context::default();
                     let mut c2 = xml_xpath::eval::model::Context::default();
                     let r1 = xml_xpath::query(st.doc.clone(), ex, &mut c1)
@@ -318,8 +342,8 @@ fn plain_dump(n: &XmlNode) -> String {
     let empty = St { doc: match n { XmlNode::Document(d) => d.clone(), _ => return String::new() }, handles: vec![], by_id: HashMap::new() };
     let mut seen = vec![];
     let d = dump(&empty, n, 0, &mut seen).replace("h?:", "");
-    // adjacent text nodes read back as one
-    let mut out = d;
+    // an empty text node denotes no character; adjacent text nodes read back as one
+    let mut out = d.replace("T()", "");
     loop {
         let next = merge_text(&out);
         if next == out {
@@ -331,14 +355,17 @@ fn plain_dump(n: &XmlNode) -> String {
 }
 
 fn merge_text(s: &str) -> String {
-    // T(a)T(b) -> T(ab)   (percent-encoded payloads concatenate)
-    if let Some(i) = s.find(")T(") {
-        // make sure the left part is a T( ... ) too
-        if let Some(j) = s[..i].rfind("T(") {
-            if !s[j..i].contains(')') && (j == 0 || !s[..j].ends_with(|c: char| c.is_ascii_alphabetic())) {
+    // T(a)T(b) -> T(ab)   (percent-encoded payloads concatenate); every occurrence is tried
+    let mut from = 0;
+    while let Some(off) = s[from..].find(")T(") {
+        let i = from + off;
+        if let Some(j) = s[..i].rfind('(') {
+            // the bracket that closes at i was opened at j: it must belong to a text node `T(`
+            if j >= 1 && &s[j - 1..j] == "T" && (j < 2 || !s[j - 2..j - 1].chars().all(|c| c.is_ascii_alphabetic())) {
                 return format!("{}{}", &s[..i], &s[i + 3..]);
             }
         }
+        from = i + 1;
     }
     s.to_string()
 }
@@ -368,8 +395,15 @@ fn apply(st: &mut St, op: &str) -> String {
     }
     let newnode = |st: &mut St, r: Result<XmlNode, xml_dom::error::Error>| -> String {
         match r {
-            Ok(v) => format!("ok=h{}", st.add(v)),
-            Err(er) => format!("err:{}", err_class(&er)),
+            Ok(v) => {
+                let h = st.slot(Some(v.clone()));
+                let _ = h;
+                format!("ok={}", st.h(&v))
+            }
+            Err(er) => {
+                st.slot(None);
+                format!("err:{}", err_class(&er))
+            }
         }
     };
     match name {
@@ -378,16 +412,34 @@ fn apply(st: &mut St, op: &str) -> String {
             newnode(st, r)
         }
         "ct" => {
+            // the factory may panic (recorded finding): the slot is consumed first
+            let slot = st.slot(None);
             let v = st.doc.create_text_node(&field(&parts, 1)).as_node();
-            format!("ok=h{}", st.add(v))
+            if v.id() != 0 && !st.by_id.contains_key(&v.id()) {
+                st.by_id.insert(v.id(), slot);
+            }
+            st.handles[slot] = Some(v.clone());
+            format!("ok={}", st.h(&v))
         }
         "cc" => {
+            // the factory may panic (recorded finding): the slot is consumed first
+            let slot = st.slot(None);
             let v = st.doc.create_comment(&field(&parts, 1)).as_node();
-            format!("ok=h{}", st.add(v))
+            if v.id() != 0 && !st.by_id.contains_key(&v.id()) {
+                st.by_id.insert(v.id(), slot);
+            }
+            st.handles[slot] = Some(v.clone());
+            format!("ok={}", st.h(&v))
         }
         "cd" => {
+            // the factory may panic (recorded finding): the slot is consumed first
+            let slot = st.slot(None);
             let v = st.doc.create_cdata_section(&field(&parts, 1)).as_node();
-            format!("ok=h{}", st.add(v))
+            if v.id() != 0 && !st.by_id.contains_key(&v.id()) {
+                st.by_id.insert(v.id(), slot);
+            }
+            st.handles[slot] = Some(v.clone());
+            format!("ok={}", st.h(&v))
         }
         "cp" => {
             let r = st.doc.create_processing_instruction(&field(&parts, 1), &field(&parts, 2)).map(|v| v.as_node());
@@ -475,17 +527,32 @@ fn apply(st: &mut St, op: &str) -> String {
         },
         "ga" => match n!(1) {
             XmlNode::Element(x) => match x.get_attribute_node(&field(&parts, 2)) {
-                Some(a) => format!("ok=h{}", st.add(a.as_node())),
-                None => "ok=-".to_string(),
+                Some(a) => {
+                    st.slot(Some(a.as_node()));
+                    format!("ok={}", st.h(&a.as_node()))
+                }
+                None => {
+                    st.slot(None);
+                    "ok=-".to_string()
+                }
             },
-            _ => "unsupported".to_string(),
+            _ => {
+                st.slot(None);
+                "unsupported".to_string()
+            }
         },
         "ch" => {
             let p = n!(1);
             let i: usize = parts.get(2).and_then(|s| s.parse().ok()).unwrap_or(0);
             match p.child_nodes().item(i) {
-                Some(k) => format!("ok=h{}", st.add(k)),
-                None => "ok=-".to_string(),
+                Some(k) => {
+                    st.slot(Some(k.clone()));
+                    format!("ok={}", st.h(&k))
+                }
+                None => {
+                    st.slot(None);
+                    "ok=-".to_string()
+                }
             }
         }
         "sv" => {
@@ -534,7 +601,10 @@ fn apply(st: &mut St, op: &str) -> String {
             match n!(1) {
                 XmlNode::Text(x) => newnode(st, x.split_text(off).map(|v| v.as_node())),
                 XmlNode::CData(x) => newnode(st, x.split_text(off).map(|v| v.as_node())),
-                _ => "unsupported".to_string(),
+                _ => {
+                    st.slot(None);
+                    "unsupported".to_string()
+                }
             }
         }
         "nz" => match n!(1) {
@@ -564,7 +634,7 @@ pub fn dom(args: &[String]) -> String {
     let snapshot = |st: &St| -> String {
         let mut seen: Vec<usize> = vec![];
         let mut s = dump(st, &st.doc.as_node(), 0, &mut seen);
-        for n in st.handles.iter() {
+        for n in st.handles.iter().flatten() {
             if seen.contains(&n.id()) {
                 continue;
             }
@@ -572,8 +642,11 @@ pub fn dom(args: &[String]) -> String {
             if n.parent_node().is_some() {
                 continue;
             }
-            if let XmlNode::Attribute(_) = n {
-                // an attribute owned by an element is dumped there; seen covers it
+            if let XmlNode::Attribute(a) = n {
+                // an attribute owned by an element is dumped with that element
+                if a.owner_element().is_some() {
+                    continue;
+                }
             }
             s.push_str(" ~ ");
             s.push_str(&dump(st, n, 0, &mut seen));
@@ -582,11 +655,17 @@ pub fn dom(args: &[String]) -> String {
     };
     out.push(format!("init {{{}}} {}", snapshot(&st), monitors(&st, &exprs)));
     for op in &args[2..] {
+        let before = st.handles.len();
         let r = catch_unwind(AssertUnwindSafe(|| apply(&mut st, op)));
         let status = match r {
             Ok(s) => s,
             Err(_) => "panic".to_string(),
         };
+        // an allocating operation consumes exactly one handle slot whatever happened
+        let name = op.split(':').next().unwrap_or("");
+        if ["ce", "ct", "cc", "cd", "cp", "ca", "cr", "st", "ga", "ch"].contains(&name) && st.handles.len() == before {
+            st.handles.push(None);
+        }
         let snap = catch_unwind(AssertUnwindSafe(|| format!("{{{}}} {}", snapshot(&st), monitors(&st, &exprs))))
             .unwrap_or_else(|_| "{dump-panic}".to_string());
         out.push(format!("{} {}", status, snap));
